@@ -2,6 +2,7 @@ import Driver.Common
 import SSV.Model.Packet
 import SSV.Model.PacketLimit
 import SSV.Model.PacketHistory
+import SSV.Model.PacketRefused
 open SSV SSV.Packet
 
 /-! Line-protocol driver of the C05 packet model.  State: the current buffer and a saved wire packet. -/
@@ -12,6 +13,7 @@ structure St where
   shared : Bytes := []                 -- the reused packet buffer of a history
   cache : DomainCache := []            -- the server unpacker's DomainCache
   res : ResState := ⟨[], none⟩         -- the direct packer's resolver cache
+  cu : CUState := {}                   -- the ss2022 client unpacker's session state
 
 def canary (seed i : Nat) : UInt8 := UInt8.ofNat (i * 167 + (i / 256) * 13 + seed)
 def payByte (seed j : Nat) : UInt8 := UInt8.ofNat (j * 59 + (j / 256) * 7 + seed * 3 + 101)
@@ -69,6 +71,7 @@ def showErr : Err → String
   | .tooBig => "tooBig" | .tooSmall => "tooSmall" | .incomplete => "incomplete" | .typeMismatch => "typeMismatch"
   | .badTimestamp => "badTimestamp" | .csidMismatch => "csidMismatch" | .addr => "addr" | .frag => "frag"
   | .source => "source" | .aeadOpen => "open" | .userNotFound => "userNotFound" | .resolve => "resolve"
+  | .tooManySessions => "tooManySessions" | .replay => "replay"
 
 def h (bs : Bytes) : String := toString (fnv64 bs).toNat
 
@@ -106,6 +109,15 @@ def outUnpacked {α : Type} (sh : α → String) (st : St) (fs : List String) (p
   | .panic => (st, "panic")
   | .noRoom => (st, "noRoom")
 
+/-- a refused none / SOCKS5 pack still wrote its header: report (and keep) the buffer it leaves -/
+def outRefused (st : St) (fs : List String) (o : Outcome Packed) (refused : Bytes) : St × String :=
+  match o with
+  | .err e =>
+    -- in the relay flows (`ws=` given) the buffer holds cipher-dependent leftovers: no whole-buffer comparison there
+    if (arg fs "ws").isSome then ({ st with buf := refused }, s!"err {showErr e}")
+    else ({ st with buf := refused }, s!"err {showErr e} {h refused}")
+  | _ => outPacked st fs o
+
 def showHeadroom (x : Headroom) : String := s!"{x.front} {x.rear}"
 
 def stepPack (st : St) (kind : String) (fs : List String) : Option (St × String) := do
@@ -121,10 +133,18 @@ def stepPack (st : St) (kind : String) (fs : List String) : Option (St × String
       (← (arg fs "src").bind parseAddrPort) start len (← argInt fs "max") (← argNat fs "rand") (← argHex fs "ts")
       (← argHex fs "ssid") (← argHex fs "spid") (← argHex fs "csid")
     pure (outPacked st fs r)
-  | "nonec" => pure (outPacked st fs (plainClientPack false (← argInt fs "limit") st.buf (← (arg fs "addr").bind parseAddr) start len))
-  | "socks5c" => pure (outPacked st fs (plainClientPack true (← argInt fs "limit") st.buf (← (arg fs "addr").bind parseAddr) start len))
-  | "nones" => pure (outPacked st fs (plainServerPack false st.buf (← (arg fs "src").bind parseAddrPort) start len (← argInt fs "max")))
-  | "socks5s" => pure (outPacked st fs (plainServerPack true st.buf (← (arg fs "src").bind parseAddrPort) start len (← argInt fs "max")))
+  | "nonec" =>
+    let a ← (arg fs "addr").bind parseAddr
+    pure (outRefused st fs (plainClientPack false (← argInt fs "limit") st.buf a start len) (plainClientPackRefusedBuf false st.buf a start))
+  | "socks5c" =>
+    let a ← (arg fs "addr").bind parseAddr
+    pure (outRefused st fs (plainClientPack true (← argInt fs "limit") st.buf a start len) (plainClientPackRefusedBuf true st.buf a start))
+  | "nones" =>
+    let a ← (arg fs "src").bind parseAddrPort
+    pure (outRefused st fs (plainServerPack false st.buf a start len (← argInt fs "max")) (plainServerPackRefusedBuf false st.buf a start))
+  | "socks5s" =>
+    let a ← (arg fs "src").bind parseAddrPort
+    pure (outRefused st fs (plainServerPack true st.buf a start len (← argInt fs "max")) (plainServerPackRefusedBuf true st.buf a start))
   | "directc" =>
     let res ← arg fs "res"
     let res? ← (if res == "-" then some none else (parseIP res).map some)
@@ -151,9 +171,17 @@ def stepUnpack (st : St) (kind : String) (fs : List String) : Option (St × Stri
   | "sss" =>
     let idh ← argNat fs "idh"
     let lookup := (← argNat fs "lookup") == 1
-    let users : List (Bytes × Bytes) := [((← argHex fs "uhash"), aeadKey)]
+    -- the user table of a multi-user server: the other users (each with its own session key) and the client's user
+    let others : Bytes := (argHex fs "others").getD []
+    let otherUsers : List (Bytes × Bytes) := (List.range (others.length / 16)).map (fun i => (sub others (16 * i) 16, [9, UInt8.ofNat i]))
+    let upos := (argNat fs "upos").getD 0
+    let users : List (Bytes × Bytes) := otherUsers.take upos ++ [((← argHex fs "uhash"), aeadKey)] ++ otherUsers.drop upos
     let r := ssServerUnpackC st.cache toyCrypto (blockFor idh) aeadKey idh lookup users (← argInt fs "now") st.buf start len
     pure (outUnpacked showAddr { st with cache := r.1 } fs start len r.2)
+  | "sscs" =>
+    -- the stateful client unpacker (one instance per session); every server session uses the toy session key
+    let r := ssClientUnpackS toyCrypto userBlock (fun _ => aeadKey) (← argHex fs "csid") (← argInt fs "now") st.cu st.buf start len
+    pure (outUnpacked showAddrPort { st with cu := r.1 } fs start len r.2)
   | "ssc" =>
     pure (outUnpacked showAddrPort st fs start len
       (ssClientUnpack toyCrypto userBlock aeadKey (← argHex fs "csid") (← argInt fs "now") st.buf start len))
@@ -187,7 +215,7 @@ def stepOpt (st : St) (fs : List String) : Option (St × String) :=
     else pure ({ st with buf := splice st.buf start ((List.range len).map (payByte seed)) }, "ok")
   | ["stash"] => pure ({ st with shared := st.buf }, "ok")
   | ["unstash"] => pure ({ st with buf := st.shared }, "ok")
-  | ["newsession"] => pure ({ st with cache := [], res := ⟨[], none⟩ }, "ok")
+  | ["newsession"] => pure ({ st with cache := [], res := ⟨[], none⟩, cu := {} }, "ok")
   | ["take", start, len] => do
     let start ← start.toNat?
     let len ← len.toNat?
